@@ -1132,16 +1132,34 @@ theorem bIn_assocInsert {acc : List (String × Value)} {k : String} {v : Value} 
   · exact hv
   · exact ha kv h
 
-theorem bIn_foldl_insert {defs : List (String × Value)} (hd : BIn T defs) :
-    ∀ {acc : List (String × Value)}, BIn T acc →
-      BIn T (defs.foldl (fun a p => assocInsert a p.1 p.2) acc) := by
+/-- merging the bindings of an import set into the accumulated ones (a name imported twice with
+different values is an unlocated error) -/
+theorem bIn_foldlM_insert {σ : Store} {defs : List (String × Value)} (hd : BIn T defs) :
+    ∀ {acc : List (String × Value)} {r}, BIn T acc →
+      defs.foldlM (fun (a : List (String × Value)) p =>
+          match a.lookup p.1 with
+          | some prev => if Prim.derivedEq σ 100000 prev p.2 then Except.ok (assocInsert a p.1 p.2)
+                         else Except.error ((Err.other, none) : SErr)
+          | none => Except.ok (assocInsert a p.1 p.2)) acc = r →
+      (∀ acc', r = .ok acc' → BIn T acc') ∧ (∀ e, r = .error e → e.2 = none) := by
   induction defs with
-  | nil => intro acc ha; exact ha
+  | nil =>
+    intro acc r ha h
+    simp only [List.foldlM_nil, pure, Except.pure] at h; subst h
+    exact ⟨fun a' h' => by cases h'; exact ha, by simp⟩
   | cons p rest ih =>
-    intro acc ha
-    simp only [List.foldl_cons]
-    exact ih (fun kv h => hd kv (List.mem_cons_of_mem _ h))
-      (bIn_assocInsert ha (hd p (List.mem_cons_self ..)))
+    intro acc r ha h
+    simp only [List.foldlM_cons, bind, Except.bind] at h
+    have hrest : BIn T rest := fun kv h => hd kv (List.mem_cons_of_mem _ h)
+    have hins := bIn_assocInsert (k := p.1) ha (hd p (List.mem_cons_self ..))
+    cases hl : List.lookup p.1 acc with
+    | none => simp only [hl] at h; exact ih hrest hins h
+    | some prev =>
+      simp only [hl] at h
+      by_cases hq : Prim.derivedEq σ 100000 prev p.2 = true
+      · simp only [hq, if_true] at h; exact ih hrest hins h
+      · simp only [hq] at h
+        subst h; exact ⟨by simp, fun e he => by cases he; rfl⟩
 
 theorem sIn_foldl_define {defs : List (String × Value)} (hd : BIn T defs) (ρ : Nat) :
     ∀ {σ : Store}, SIn T σ → SIn T (defs.foldl (fun σ p => σ.define ρ p.1 p.2) σ) := by
@@ -1451,7 +1469,15 @@ theorem importSets_succ {fuel} (ih : InterpAt T fuel) {st sets acc r st'}
       have i := ih.importSet he hst hs.1
       exact ⟨i.1, by simp, fun e he => by cases he; exact i.2.2 _ rfl⟩
     · have i := ih.importSet he hst hs.1
-      exact ih.importSets h i.1 hs.2 (bIn_foldl_insert (i.2.1 _ rfl) ha)
+      split at h
+      · rename_i e hm
+        cases h
+        have := bIn_foldlM_insert (i.2.1 _ rfl) ha hm
+        exact ⟨i.1, by simp, fun e' he' => by
+          cases he'; intro l hl; rw [this.2 _ rfl] at hl; cases hl⟩
+      · rename_i acc' hm
+        have := bIn_foldlM_insert (i.2.1 _ rfl) ha hm
+        exact ih.importSets h i.1 hs.2 (this.1 _ rfl)
 
 theorem libraryDef_succ {fuel} (ih : InterpAt T fuel) {st decls r st'}
     (h : evalLibraryDef (fuel + 1) st decls = (r, st')) (hst : StIn T st)
@@ -1550,6 +1576,1033 @@ theorem evalAst_in (hc : LibClean) {fuel st s r st'} (h : evalAst fuel st s = (r
     · simp only at hk; subst hk
       refine ⟨none, iErrOK_none _, ?_⟩
       cases s.loc <;> rfl
+
+end InterpLoc
+
+/-! ## errors of the macro machinery -/
+
+namespace Macro
+
+/-- the matcher never reports a located error -/
+theorem match_err_aux (lits : List String) : ∀ n,
+    (∀ p d σ e, matchDatum n lits p d σ = .error e → e.2 = none) ∧
+    (∀ ps ds mm σ e, matchStream n lits ps ds mm σ = .error e → e.2 = none) := by
+  intro n
+  induction n with
+  | zero => constructor <;> intros <;> simp_all <;> (rename_i h; subst h; rfl)
+  | succ n ih =>
+    obtain ⟨ihD, ihS⟩ := ih
+    constructor
+    · intro p d σ e h
+      cases hp : p.isListy
+      · cases p <;> simp [Pat.isListy] at hp
+        · simp at h
+        · simp at h
+        · rw [matchDatum_vec] at h
+          cases d <;> simp at h
+          exact ihS _ _ _ _ _ h
+        · rw [matchDatum_ident] at h
+          split at h <;> cases h
+        · rw [matchDatum_prim] at h; cases h
+      · cases hdl : d.isListy
+        · rw [matchDatum_listy_atom hp hdl] at h; cases h
+        · rw [matchDatum_listy hp hdl] at h
+          split at h
+          · rename_i e' he; cases h; exact ihS _ _ _ _ _ he
+          · cases h
+          · split at h
+            · exact ihD _ _ _ _ h
+            · cases h
+            · cases h
+    · intro ps ds mm σ e h
+      cases ps with
+      | nil => cases ds <;> simp at h
+      | cons p ps =>
+        cases ds with
+        | nil =>
+          cases hp : p.isEllipsis
+          · rw [matchStream_cons_nil_ne hp] at h; cases h
+          · cases p <;> simp [Pat.isEllipsis] at hp
+            cases mm with
+            | none => simp at h
+            | some mp =>
+              rw [matchStream_ell_nil_some] at h
+              exact ihS _ _ _ _ _ h
+        | cons d ds =>
+          cases hp : p.isEllipsis
+          · rw [matchStream_step_ne hp] at h
+            split at h
+            · rename_i e' he; cases h; exact ihD _ _ _ _ he
+            · cases h
+            · exact ihS _ _ _ _ _ h
+          · cases p <;> simp [Pat.isEllipsis] at hp
+            cases n with
+            | zero => rw [matchStream_ell_one] at h; cases h; rfl
+            | succ n =>
+              cases mm with
+              | none => rw [matchStream_ell_none] at h; cases h; rfl
+              | some mp =>
+                rw [matchStream_step_ell] at h
+                split at h
+                · rename_i e' he; cases h; exact ihD _ _ _ _ he
+                · cases h
+                · split at h
+                  · cases h; rfl
+                  · split at h
+                    · rename_i e' he; cases h; exact ihS _ _ _ _ _ he
+                    · cases h
+                    · exact ihS _ _ _ _ _ h
+
+/-- expanding a macro use never reports a located error -/
+theorem transformRules_err {fuel : Nat} {lits : List String} {use : Datum} :
+    ∀ (rules : List (Pat × Tmpl)) (e : SErr), transformRules fuel lits rules use = .error e → e.2 = none
+  | [], e, h => by simp [transformRules] at h; subst h; rfl
+  | (p, t) :: rest, e, h => by
+    rw [transformRules] at h
+    cases hm : matchDatum fuel lits p use [] with
+    | error e' =>
+      simp only [hm, bind, Except.bind] at h
+      cases h; exact (match_err_aux lits fuel).1 _ _ _ _ hm
+    | ok r =>
+      obtain ⟨ok, σ⟩ := r
+      simp only [hm, bind, Except.bind] at h
+      split at h
+      · split at h
+        · cases h; rfl
+        · split at h
+          · cases h
+          · cases h; rfl
+      · exact transformRules_err rest e h
+
+/-! ### building the rules of a `define-syntax` -/
+
+theorem bind_err {α β} {x : Except SErr α} {f : α → Except SErr β} {e : SErr}
+    (h : (x >>= f) = .error e) : x = .error e ∨ ∃ a, x = .ok a ∧ f a = .error e := by
+  cases x with
+  | error e' => left; simpa [bind, Except.bind] using h
+  | ok a => right; exact ⟨a, rfl, h⟩
+
+mutual
+theorem toTmpl_err : ∀ (d : Datum) (e : SErr), toTmpl d = .error e → e.2.toList ⊆ d.locs
+  | .sym s _, e, h => by simp [toTmpl] at h
+  | .prim p _, e, h => by simp [toTmpl] at h
+  | .nil _, e, h => by simp [toTmpl] at h
+  | .pair a d l, e, h => by
+    unfold toTmpl at h
+    simp only [Datum.locs]
+    split at h
+    · cases h; simp [Datum.locs]
+    · rcases bind_err h with h1 | ⟨t, -, h2⟩
+      · have := toTmpl_err a e h1
+        exact this.trans (by simp)
+      · rcases bind_err h2 with h3 | ⟨es, -, h4⟩
+        · have := collectSpine_err d (some t) e h3
+          exact this.trans (by simp)
+        · cases h4
+  | .vec xs l, e, h => by
+    rw [toTmpl] at h
+    simp only [Datum.locs]
+    rcases bind_err h with h1 | ⟨es, -, h2⟩
+    · exact (collectElems_err xs none e h1).trans (by simp)
+    · cases h2
+theorem collectSpine_err : ∀ (d : Datum) (last : Option Tmpl) (e : SErr),
+    collectSpine d last = .error e → e.2.toList ⊆ d.locs
+  | .pair a d l, last, e, h => by
+    unfold collectSpine at h
+    simp only [Datum.locs]
+    split at h
+    · split at h
+      · rcases bind_err h with h1 | ⟨es, -, h2⟩
+        · exact (collectSpine_err d none e h1).trans (by simp)
+        · cases h2
+      · cases h; simp [Datum.locs]
+    · rcases bind_err h with h1 | ⟨t, -, h2⟩
+      · exact (toTmpl_err a e h1).trans (by simp)
+      · rcases bind_err h2 with h3 | ⟨es, -, h4⟩
+        · exact (collectSpine_err d (some t) e h3).trans (by simp)
+        · cases h4
+  | .nil _, last, e, h => by simp [collectSpine] at h
+  | .sym s l, last, e, h => by
+    unfold collectSpine at h
+    split at h
+    · split at h
+      · cases h
+      · cases h; simp [Datum.locs]
+    · cases h
+  | .prim q _, last, e, h => by simp [collectSpine] at h
+  | .vec xs l, last, e, h => by
+    unfold collectSpine at h
+    simp only [Datum.locs]
+    rcases bind_err h with h1 | ⟨es, -, h2⟩
+    · exact (collectElems_err xs none e h1).trans (by simp)
+    · cases h2
+theorem collectElems_err : ∀ (xs : List Datum) (last : Option Tmpl) (e : SErr),
+    collectElems xs last = .error e → e.2.toList ⊆ Datum.locsList xs
+  | [], last, e, h => by simp [collectElems] at h
+  | x :: xs, last, e, h => by
+    unfold collectElems at h
+    simp only [Datum.locsList]
+    split at h
+    · split at h
+      · rcases bind_err h with h1 | ⟨es, -, h2⟩
+        · exact (collectElems_err xs none e h1).trans (by simp)
+        · cases h2
+      · cases h; simp [Datum.locs]
+    · rcases bind_err h with h1 | ⟨t, -, h2⟩
+      · exact (toTmpl_err x e h1).trans (by simp)
+      · rcases bind_err h2 with h3 | ⟨es, -, h4⟩
+        · exact (collectElems_err xs (some t) e h3).trans (by simp)
+        · cases h4
+end
+
+theorem mapM_err {α β} {f : α → Except SErr β} : ∀ {xs : List α} {e : SErr},
+    xs.mapM f = .error e → ∃ x ∈ xs, f x = .error e
+  | [], e, h => by simp [pure, Except.pure] at h
+  | x :: xs, e, h => by
+    rw [List.mapM_cons] at h
+    rcases bind_err h with h1 | ⟨b, -, h2⟩
+    · exact ⟨x, by simp, h1⟩
+    · rcases bind_err h2 with h3 | ⟨bs, -, h4⟩
+      · obtain ⟨y, hy, hf⟩ := mapM_err h3
+        exact ⟨y, by simp [hy], hf⟩
+      · cases h4
+
+theorem expectList_ok {d d' : Datum} (h : expectList d = .ok d') : d' = d := by
+  unfold expectList at h; split at h <;> cases h <;> rfl
+theorem expectList_err {d : Datum} {e : SErr} (h : expectList d = .error e) : e.2 = none := by
+  unfold expectList at h; split at h <;> cases h; rfl
+theorem identOf_err {d : Datum} {e : SErr} (h : identOf d = .error e) : e.2.toList ⊆ d.locs := by
+  unfold identOf at h; split at h <;> cases h
+  exact Datum.loc_subset _
+theorem popProper_err {d : Datum} {e : SErr} (h : popProper d = .error e) : e.2 = none := by
+  unfold popProper at h; split at h <;> cases h; rfl
+theorem popProper_ok {d first rest : Datum} (h : popProper d = .ok (some (first, rest))) :
+    ∃ l, d = .pair first rest l := by
+  unfold popProper at h; split at h <;> cases h <;> exact ⟨_, rfl⟩
+
+theorem none_sub {T : List Pos} {e : SErr} (h : e.2 = none) : e.2.toList ⊆ T := by simp [h]
+
+theorem toRule_err {keyword : String} {d : Datum} {e : SErr} (h : toRule keyword d = .error e) :
+    e.2.toList ⊆ d.locs := by
+  unfold toRule at h
+  rcases bind_err h with h1 | ⟨d', hd', h2⟩
+  · exact none_sub (expectList_err h1)
+  · have := expectList_ok hd'; subst this
+    split at h2
+    · rename_i pd rest hel
+      have hpd : pd.locs ⊆ d'.locs := Datum.elems_locs (by rw [hel]; simp)
+      rcases bind_err h2 with h3 | ⟨pd', hpd', h4⟩
+      · exact none_sub (expectList_err h3)
+      · have := expectList_ok hpd'; subst this
+        rcases bind_err h4 with h5 | ⟨o, ho, h6⟩
+        · exact none_sub (popProper_err h5)
+        · split at h6
+          · cases h6; simp
+          · rename_i first patRest
+            obtain ⟨l, rfl⟩ := popProper_ok ho
+            split at h6
+            · rename_i k lk
+              split at h6
+              · cases h6
+                refine List.Subset.trans ?_ hpd
+                simp [Datum.locs]
+              · split at h6
+                · rename_i td rest'
+                  rcases bind_err h6 with h7 | ⟨t, -, h8⟩
+                  · exact (toTmpl_err td e h7).trans (Datum.elems_locs (by rw [hel]; simp))
+                  · cases h8
+                · cases h6; simp
+            · cases h6; simp
+    · cases h2; simp
+
+theorem toRules_err {keyword : String} {d : Datum} {e : SErr} (h : toRules keyword d = .error e) :
+    e.2.toList ⊆ d.locs := by
+  unfold toRules at h
+  rcases bind_err h with h1 | ⟨d', hd', h2⟩
+  · exact none_sub (expectList_err h1)
+  · have := expectList_ok hd'; subst this
+    split at h2
+    · cases h2; simp
+    · rename_i first rest hel
+      have hmem : ∀ x ∈ first :: rest, x.locs ⊆ d'.locs := by
+        intro x hx
+        exact Datum.elems_locs (List.mem_of_mem_drop (by rw [hel]; exact hx))
+      simp only at h2
+      rcases bind_err h2 with h3 | ⟨lr, hlr, h4⟩
+      · split at h3
+        · split at h3
+          · rcases bind_err h3 with h5 | ⟨ld, -, h6⟩
+            · exact none_sub (expectList_err h5)
+            · cases h6
+          · cases h3; simp
+        · cases h3
+        · cases h3
+        · cases h3
+          exact (Datum.loc_subset first).trans (hmem first (by simp))
+      · obtain ⟨lits, ruleData⟩ := lr
+        have hparts : (∀ x ∈ lits, x.locs ⊆ d'.locs) ∧ (∀ x ∈ ruleData, x.locs ⊆ d'.locs) := by
+          split at hlr
+          · split at hlr
+            · rename_i ld rest'
+              rcases hx : expectList ld with _ | ld'
+              · simp [hx, bind, Except.bind] at hlr
+              · have := expectList_ok hx; subst this
+                simp only [hx, bind, Except.bind, pure, Except.pure, Except.ok.injEq, Prod.mk.injEq] at hlr
+                obtain ⟨rfl, rfl⟩ := hlr
+                exact ⟨fun x hx => (Datum.elems_locs hx).trans (hmem _ (by simp)),
+                  fun x hx => hmem x (by simp [hx])⟩
+            · cases hlr
+          · cases hlr
+            exact ⟨fun x hx => (Datum.elems_locs hx).trans (hmem _ (by simp)),
+              fun x hx => hmem x (by simp [hx])⟩
+          · cases hlr
+            exact ⟨fun x hx => (Datum.elems_locs hx).trans (hmem _ (by simp)),
+              fun x hx => hmem x (by simp [hx])⟩
+          · cases hlr
+        simp only at h4
+        rcases bind_err h4 with h5 | ⟨ls, -, h6⟩
+        · obtain ⟨x, hx, hf⟩ := mapM_err h5
+          exact (identOf_err hf).trans (hparts.1 x hx)
+        · rcases bind_err h6 with h7 | ⟨rs, -, h8⟩
+          · obtain ⟨x, hx, hf⟩ := mapM_err h7
+            exact (toRule_err hf).trans (hparts.2 x hx)
+          · cases h8
+
+end Macro
+
+/-! ## the transformer: every position of the statement is a position of the datum -/
+
+namespace XformLoc
+open Xform
+
+/-- every position of `L`, whatever its role, is in `T` -/
+def RIn (T : List Pos) (L : List RPos) : Prop := ∀ x ∈ L, x.2 ∈ T
+
+variable {T : List Pos}
+
+theorem rIn_iff {L : List RPos} : RIn T L ↔ unrole L ⊆ T := by
+  constructor
+  · intro h l hl; obtain ⟨r, hr⟩ := mem_unrole.1 hl; exact h _ hr
+  · intro h x hx; exact h (mem_unrole.2 ⟨x.1, hx⟩)
+@[simp] theorem rIn_nil : RIn T [] := by simp [RIn]
+@[simp] theorem rIn_append {a b : List RPos} : RIn T (a ++ b) ↔ RIn T a ∧ RIn T b := by
+  simp [RIn, or_imp, forall_and]
+@[simp] theorem rIn_as {r : Role} {l : Loc} : RIn T (l.as r) ↔ l.toList ⊆ T := by
+  cases l <;> simp [RIn, Loc.as]
+@[simp] theorem rIn_map {r : Role} {ls : List Pos} : RIn T (ls.map (fun p => (r, p))) ↔ ls ⊆ T := by
+  constructor
+  · intro h p hp; exact h (r, p) (List.mem_map.2 ⟨p, hp, rfl⟩)
+  · intro h x hx; obtain ⟨p, hp, rfl⟩ := List.mem_map.1 hx; exact h hp
+
+/-- all data of a list have their positions in `T` -/
+def AllIn (T : List Pos) (ds : List Datum) : Prop := ∀ d ∈ ds, d.locs ⊆ T
+
+theorem allIn_drop {ds : List Datum} (h : AllIn T ds) (n : Nat) : AllIn T (ds.drop n) :=
+  fun d hd => h d (List.mem_of_mem_drop hd)
+theorem allIn_head {ds : List Datum} (h : AllIn T ds) {d : Datum} (hd : ds.head? = some d) : d.locs ⊆ T :=
+  h d (List.mem_of_head? hd)
+theorem allIn_elems {d : Datum} (h : d.locs ⊆ T) : AllIn T d.elems :=
+  fun _ hx => (Datum.elems_locs hx).trans h
+theorem allIn_cons {d : Datum} {ds : List Datum} : AllIn T (d :: ds) ↔ d.locs ⊆ T ∧ AllIn T ds := by
+  simp [AllIn]
+
+theorem bind_def {α β} (m : XM α) (f : α → XM β) (s : SynEnv) :
+    (m >>= f) s = match m s with
+      | (.ok a, s') => f a s'
+      | (.error e, s') => (.error e, s') := rfl
+
+/-- what a transformer step yields: results satisfy `P`, located errors are located in `T` -/
+def XPost {α} (T : List Pos) (m : XM α) (P : α → Prop) : Prop :=
+  ∀ env, (∀ a, (m env).1 = .ok a → P a) ∧ (∀ e, (m env).1 = .error e → e.2.toList ⊆ T)
+
+theorem xp_pure {α} {a : α} {P : α → Prop} (h : P a) : XPost T (pure a : XM α) P :=
+  fun _ => ⟨fun b hb => by cases hb; exact h, fun e he => by cases he⟩
+theorem xp_fail {α} {e : SErr} {P : α → Prop} (h : e.2.toList ⊆ T) : XPost T (Xform.fail e : XM α) P :=
+  fun _ => ⟨fun b hb => (by cases hb), fun e' he => by cases he; exact h⟩
+theorem xp_fail_none {α} {k : Err} {P : α → Prop} : XPost T (Xform.fail (k, none) : XM α) P :=
+  xp_fail (by simp)
+theorem xp_lift {α} {x : Except SErr α} (h : ∀ e, x = .error e → e.2.toList ⊆ T) :
+    XPost T (lift x) (fun a => x = .ok a) :=
+  fun _ => ⟨fun _ hb => hb, fun e he => h e he⟩
+theorem xp_need {α} {o : Option α} : XPost T (need o) (fun a => o = some a) := by
+  cases o
+  · exact xp_fail_none
+  · exact xp_pure rfl
+theorem xp_bind {α β} {m : XM α} {f : α → XM β} {P : α → Prop} {Q : β → Prop}
+    (hm : XPost T m P) (hf : ∀ a, P a → XPost T (f a) Q) : XPost T (m >>= f) Q := by
+  intro env
+  have h1 := hm env
+  simp only [bind_def]
+  generalize m env = x at h1
+  obtain ⟨r, env'⟩ := x
+  cases r with
+  | error e => exact ⟨fun a ha => (by cases ha), fun e' he => by cases he; exact h1.2 e rfl⟩
+  | ok a => exact hf a (h1.1 a rfl) env'
+theorem xp_weaken {α} {m : XM α} {P Q : α → Prop} (hm : XPost T m P) (h : ∀ a, P a → Q a) :
+    XPost T m Q := fun env => ⟨fun a ha => h a ((hm env).1 a ha), (hm env).2⟩
+theorem xp_getEnv : XPost T getEnv (fun _ => True) :=
+  fun _ => ⟨fun _ _ => trivial, fun e he => by cases he⟩
+theorem xp_defineSyntax {k r} : XPost T (defineSyntax k r) (fun _ => True) :=
+  fun _ => ⟨fun _ _ => trivial, fun e he => by cases he⟩
+theorem xp_inChild {α} {m : XM α} {P : α → Prop} (hm : XPost T m P) : XPost T (inChild m) P := by
+  intro env
+  have h := hm ([] :: env)
+  simp only [Xform.inChild]
+  generalize m ([] :: env) = x at h
+  obtain ⟨r, e'⟩ := x
+  cases e' <;> exact h
+
+theorem xp_mapM_loop {α β} {f : α → XM β} {P : β → Prop} {l : List α}
+    (hf : ∀ a ∈ l, XPost T (f a) P) : ∀ (acc : List β), (∀ b ∈ acc, P b) →
+    XPost T (List.mapM.loop f l acc) (fun bs => ∀ b ∈ bs, P b) := by
+  induction l with
+  | nil =>
+    intro acc ha
+    simp only [List.mapM.loop]
+    exact xp_pure (fun b hb => ha b (List.mem_reverse.1 hb))
+  | cons a l ih =>
+    intro acc ha
+    simp only [List.mapM.loop]
+    refine xp_bind (hf a (List.mem_cons_self ..)) fun b hb => ?_
+    refine ih (fun x hx => hf x (List.mem_cons_of_mem _ hx)) _ ?_
+    intro x hx
+    rcases List.mem_cons.1 hx with rfl | hx
+    · exact hb
+    · exact ha x hx
+
+theorem xp_mapM {α β} {f : α → XM β} {P : β → Prop} {l : List α}
+    (hf : ∀ a ∈ l, XPost T (f a) P) : XPost T (l.mapM f) (fun bs => ∀ b ∈ bs, P b) :=
+  xp_mapM_loop hf [] (by simp)
+
+theorem identOf_post (d : Datum) (hd : d.locs ⊆ T) : XPost T (identOf d) (fun _ => True) := by
+  unfold Xform.identOf
+  refine xp_weaken (xp_lift ?_) (fun _ _ => trivial)
+  intro e he
+  unfold Macro.identOf at he
+  split at he <;> cases he
+  exact (Datum.loc_subset _).trans hd
+
+theorem expectList_post (d : Datum) : XPost T (expectList d) (fun d' => d' = d) := by
+  unfold Xform.expectList
+  refine xp_weaken (xp_lift ?_) ?_
+  · intro e he; unfold Macro.expectList at he; split at he <;> cases he; simp
+  · intro a ha; unfold Macro.expectList at ha; split at ha <;> cases ha <;> rfl
+
+theorem spine_all_locs (d : Datum) {b : Datum} (hm : b ∈ d.spine.1 ++ d.spine.2.toList) :
+    b.locs ⊆ d.locs := by
+  have hs := Datum.spine_locs d
+  rcases List.mem_append.1 hm with hm | hm
+  · exact hs.1 b hm
+  · cases ht : d.spine.2 with
+    | none => simp [ht] at hm
+    | some t =>
+      simp only [ht, Option.toList_some, List.mem_singleton] at hm
+      subst hm; exact hs.2 _ ht
+
+theorem toFormals_post (d : Datum) (hd : d.locs ⊆ T) : XPost T (toFormals d) (fun _ => True) := by
+  unfold Xform.toFormals
+  split
+  · simp only
+    split
+    · rename_i b hb
+      exact xp_fail ((Datum.loc_subset b).trans
+        ((spine_all_locs _ (List.mem_of_find?_eq_some hb)).trans hd))
+    · exact xp_pure trivial
+  · simp only
+    split
+    · rename_i b hb
+      exact xp_fail ((Datum.loc_subset b).trans
+        ((spine_all_locs _ (List.mem_of_find?_eq_some hb)).trans hd))
+    · exact xp_pure trivial
+  · exact xp_pure trivial
+  · exact xp_fail ((Datum.loc_subset _).trans hd)
+
+theorem toLibName_post (ds : List Datum) (hd : AllIn T ds) : XPost T (toLibName ds) (fun _ => True) := by
+  unfold Xform.toLibName
+  refine xp_weaken (xp_mapM (P := fun _ => True) ?_) (fun _ _ => trivial)
+  intro d hdm
+  have := hd d hdm
+  split
+  · exact xp_pure trivial
+  · split
+    · exact xp_pure trivial
+    · refine xp_fail ?_
+      simpa [Datum.locs] using this
+  · exact xp_fail ((Datum.loc_subset _).trans this)
+
+theorem toExportSpec_post (d : Datum) (hd : d.locs ⊆ T) :
+    XPost T (toExportSpec d) (fun s => s.loc.toList ⊆ T) := by
+  unfold Xform.toExportSpec
+  have hl : d.loc.toList ⊆ T := (Datum.loc_subset d).trans hd
+  split
+  · refine xp_pure ?_; simpa [ExportSpec.loc, Datum.locs] using hd
+  · simp only
+    refine xp_bind xp_need fun h hh => ?_
+    have he := allIn_elems hd
+    split
+    · refine xp_bind xp_need fun a ha => ?_
+      refine xp_bind (identOf_post a (allIn_head (allIn_drop he 1) ha)) fun _ _ => ?_
+      refine xp_bind xp_need fun b hb => ?_
+      refine xp_bind (identOf_post b (allIn_head (allIn_drop he 2) hb)) fun _ _ => ?_
+      exact xp_pure (by simpa [ExportSpec.loc] using hl)
+    · exact xp_fail_none
+  · simp only
+    refine xp_bind xp_need fun h hh => ?_
+    have he := allIn_elems hd
+    split
+    · refine xp_bind xp_need fun a ha => ?_
+      refine xp_bind (identOf_post a (allIn_head (allIn_drop he 1) ha)) fun _ _ => ?_
+      refine xp_bind xp_need fun b hb => ?_
+      refine xp_bind (identOf_post b (allIn_head (allIn_drop he 2) hb)) fun _ _ => ?_
+      exact xp_pure (by simpa [ExportSpec.loc] using hl)
+    · exact xp_fail_none
+  · exact xp_fail_none
+
+theorem mapM_identOf_post {ds : List Datum} (hd : AllIn T ds) :
+    XPost T (ds.mapM identOf) (fun _ => True) :=
+  xp_weaken (xp_mapM (P := fun _ => True) (fun d hdm => identOf_post d (hd d hdm))) (fun _ _ => trivial)
+
+theorem toImportSet_post : ∀ (n : Nat) (d : Datum), d.locs ⊆ T →
+    XPost T (toImportSet n d) (fun s => s.locs ⊆ T)
+  | 0, d, _ => by rw [Xform.toImportSet]; exact xp_fail_none
+  | n + 1, d, hd => by
+    rw [Xform.toImportSet]
+    refine xp_bind (expectList_post d) fun d' hd' => ?_
+    subst hd'
+    have he := allIn_elems hd
+    refine xp_bind xp_need fun first hf => ?_
+    have hfirst := allIn_head he hf
+    refine xp_bind (identOf_post first hfirst) fun spec _ => ?_
+    split
+    · skip
+      dsimp only
+      refine xp_bind xp_need fun s0 hs0 => ?_
+      refine xp_bind (toImportSet_post n s0 (allIn_head (allIn_drop he 1) hs0)) fun s hs => ?_
+      have hr := allIn_drop he 2
+      exact xp_bind (mapM_identOf_post hr) fun _ _ => xp_pure (by simpa [ImportSet.locs] using hs)
+    split
+    · skip
+      dsimp only
+      refine xp_bind xp_need fun s0 hs0 => ?_
+      refine xp_bind (toImportSet_post n s0 (allIn_head (allIn_drop he 1) hs0)) fun s hs => ?_
+      have hr := allIn_drop he 2
+      exact xp_bind (mapM_identOf_post hr) fun _ _ => xp_pure (by simpa [ImportSet.locs] using hs)
+    split
+    · skip
+      dsimp only
+      refine xp_bind xp_need fun s0 hs0 => ?_
+      refine xp_bind (toImportSet_post n s0 (allIn_head (allIn_drop he 1) hs0)) fun s hs => ?_
+      have hr := allIn_drop he 2
+      refine xp_bind xp_need fun p hp => ?_
+      exact xp_bind (identOf_post p (allIn_head hr hp)) fun _ _ => xp_pure (by simpa [ImportSet.locs] using hs)
+    split
+    · skip
+      dsimp only
+      refine xp_bind xp_need fun s0 hs0 => ?_
+      refine xp_bind (toImportSet_post n s0 (allIn_head (allIn_drop he 1) hs0)) fun s hs => ?_
+      have hr := allIn_drop he 2
+      refine xp_bind (xp_mapM (P := fun _ => True) ?_) fun _ _ => xp_pure (by simpa [ImportSet.locs] using hs)
+      intro pd hpd
+      refine xp_bind (expectList_post pd) fun pd' hpd' => ?_
+      subst hpd'
+      have hpe := allIn_elems (hr pd' hpd)
+      refine xp_bind xp_need fun a ha => ?_
+      refine xp_bind (identOf_post a (allIn_head hpe ha)) fun _ _ => ?_
+      refine xp_bind xp_need fun b hb => ?_
+      refine xp_bind (identOf_post b (allIn_head (allIn_drop hpe 1) hb)) fun _ _ => ?_
+      exact xp_pure trivial
+    · refine xp_bind (toLibName_post _ he) fun _ _ => xp_pure ?_
+      simpa [ImportSet.locs] using (Datum.loc_subset first).trans hfirst
+
+theorem defs_rlocsList_eq (ds : List Def) : Def.rlocsList ds = ds.flatMap Def.rlocs := by
+  induction ds with
+  | nil => rfl
+  | cons d ds ih => simp [Def.rlocsList, ih]
+theorem expr_rlocsList_eq (es : List Expr) : Expr.rlocsList es = es.flatMap Expr.rlocs := by
+  induction es with
+  | nil => rfl
+  | cons d ds ih => simp [Expr.rlocsList, ih]
+theorem rIn_defs_reverse {ds : List Def} (h : RIn T (Def.rlocsList ds)) : RIn T (Def.rlocsList ds.reverse) := by
+  rw [defs_rlocsList_eq] at h ⊢
+  intro x hx; apply h
+  simp only [List.mem_flatMap, List.mem_reverse] at hx ⊢; exact hx
+theorem rIn_exprs_reverse {es : List Expr} (h : RIn T (Expr.rlocsList es)) :
+    RIn T (Expr.rlocsList es.reverse) := by
+  rw [expr_rlocsList_eq] at h ⊢
+  intro x hx; apply h
+  simp only [List.mem_flatMap, List.mem_reverse] at hx ⊢; exact hx
+
+theorem rIn_importSets {sets : List ImportSet} (h : ∀ s ∈ sets, s.locs ⊆ T) :
+    RIn T (ImportSet.rlocsList sets) := by
+  simp only [ImportSet.rlocsList, rIn_map]
+  intro p hp
+  simp only [List.mem_flatMap] at hp
+  obtain ⟨s, hs, hp⟩ := hp
+  exact h s hs hp
+
+theorem rIn_exports {specs : List ExportSpec} (h : ∀ s ∈ specs, s.loc.toList ⊆ T) :
+    RIn T (specs.flatMap (fun s => s.loc.as .export)) := by
+  intro x hx
+  simp only [List.mem_flatMap] at hx
+  obtain ⟨s, hs, hx⟩ := hx
+  exact (rIn_as.2 (h s hs)) x hx
+
+/-- the invariant for all functions of the mutual block at one amount of fuel -/
+structure XAt (T : List Pos) (n : Nat) : Prop where
+  stmt : ∀ d, d.locs ⊆ T → XPost T (toStatement n d) (fun s => RIn T s.rlocs)
+  expr : ∀ d, d.locs ⊆ T → XPost T (toExpr n d) (fun e => RIn T e.rlocs)
+  call : ∀ first args loc, first.locs ⊆ T → AllIn T args → loc.toList ⊆ T →
+    XPost T (toCall n first args loc) (fun e => RIn T e.rlocs)
+  exprs : ∀ ds, AllIn T ds → XPost T (toExprs n ds) (fun es => RIn T (Expr.rlocsList es))
+  defn : ∀ args, AllIn T args → XPost T (toDefinition n args) (fun p => RIn T p.2.rlocs)
+  lam : ∀ args, AllIn T args → XPost T (toLambda n args) (fun l => RIn T l.rlocs)
+  body : ∀ ds defs exprs, AllIn T ds → RIn T (Def.rlocsList defs) → RIn T (Expr.rlocsList exprs) →
+    XPost T (toBody n ds defs exprs) (fun p => RIn T (Def.rlocsList p.1) ∧ RIn T (Expr.rlocsList p.2))
+  lib : ∀ args loc, AllIn T args → loc.toList ⊆ T →
+    XPost T (toLibrary n args loc) (fun s => RIn T s.rlocs)
+  decls : ∀ ds, AllIn T ds → XPost T (toLibDecls n ds) (fun xs => RIn T (LibDecl.rlocsList xs))
+  decl : ∀ d, d.locs ⊆ T → XPost T (toLibDecl n d) (fun x => RIn T x.rlocs)
+  stmts : ∀ ds, AllIn T ds → XPost T (toStatements n ds) (fun ss => RIn T (Statement.rlocsList ss))
+
+theorem xAt_zero : XAt T 0 := by
+  constructor <;> intros <;>
+    simp only [toStatement, toExpr, toCall, toExprs, toDefinition, toLambda, toBody, toLibrary, toLibDecls,
+      toLibDecl, toStatements] <;> exact xp_fail_none
+
+section succ
+variable {n : Nat} (ih : XAt T n)
+include ih
+
+theorem x_expr (d : Datum) (hd : d.locs ⊆ T) : XPost T (toExpr (n+1) d) (fun e => RIn T e.rlocs) := by
+  rw [toExpr]
+  refine xp_bind (ih.stmt d hd) fun s hs => ?_
+  split
+  · exact xp_pure (by simpa [Statement.rlocs] using hs)
+  · exact xp_fail_none
+
+theorem x_call (first args loc) (hf : first.locs ⊆ T) (ha : AllIn T args) (hl : loc.toList ⊆ T) :
+    XPost T (toCall (n+1) first args loc) (fun e => RIn T e.rlocs) := by
+  rw [toCall]
+  refine xp_bind (ih.expr first hf) fun f hf' => ?_
+  refine xp_bind (ih.exprs args ha) fun as has => ?_
+  refine xp_pure ?_
+  simp only [Expr.rlocs, rIn_append, rIn_as]
+  refine ⟨hl, ?_, hf', has⟩
+  -- the operator's own position is one of its positions
+  cases f <;> simp only [Expr.rlocs, rIn_append, rIn_as] at hf' <;> simp only [Expr.loc] <;>
+    first | exact hf'.1 | exact hf'
+
+theorem x_exprs (ds) (hd : AllIn T ds) : XPost T (toExprs (n+1) ds) (fun es => RIn T (Expr.rlocsList es)) := by
+  cases ds with
+  | nil => rw [toExprs]; exact xp_pure (by simp [Expr.rlocsList])
+  | cons d ds =>
+    rw [toExprs]
+    rw [allIn_cons] at hd
+    refine xp_bind (ih.expr d hd.1) fun e he => ?_
+    refine xp_bind (ih.exprs ds hd.2) fun es hes => ?_
+    exact xp_pure (by simp [Expr.rlocsList, he, hes])
+
+theorem x_defn (args) (ha : AllIn T args) :
+    XPost T (toDefinition (n+1) args) (fun p => RIn T p.2.rlocs) := by
+  rw [toDefinition]
+  refine xp_bind xp_need fun first hf => ?_
+  have hfirst := allIn_head ha hf
+  split
+  · refine xp_bind xp_need fun b hb => ?_
+    refine xp_bind (ih.expr b (allIn_head (allIn_drop ha 1) hb)) fun e he => ?_
+    exact xp_pure he
+  · rename_i nameD formalsD l
+    simp only [Datum.locs, List.append_subset] at hfirst
+    refine xp_bind (identOf_post nameD hfirst.2.1) fun name _ => ?_
+    refine xp_bind (toFormals_post formalsD hfirst.2.2) fun formals _ => ?_
+    refine xp_bind (ih.body _ [] [] (allIn_drop ha 1) (by simp [Def.rlocsList]) (by simp [Expr.rlocsList]))
+      fun p hp => ?_
+    refine xp_pure ?_
+    simp only [Expr.rlocs, Lambda.rlocs, rIn_append, rIn_as]
+    exact ⟨(Datum.loc_subset nameD).trans hfirst.2.1, hp.1, hp.2⟩
+  · exact xp_fail ((Datum.loc_subset _).trans hfirst)
+  · exact xp_fail ((Datum.loc_subset _).trans hfirst)
+
+theorem x_lam (args) (ha : AllIn T args) : XPost T (toLambda (n+1) args) (fun l => RIn T l.rlocs) := by
+  rw [toLambda]
+  refine xp_bind xp_need fun f hf => ?_
+  refine xp_bind (toFormals_post f (allIn_head ha hf)) fun formals _ => ?_
+  refine xp_bind (xp_inChild (ih.body _ [] [] (allIn_drop ha 1) (by simp [Def.rlocsList])
+    (by simp [Expr.rlocsList]))) fun p hp => ?_
+  exact xp_pure (by simp [Lambda.rlocs, hp.1, hp.2])
+
+theorem x_body (ds defs exprs) (hd : AllIn T ds) (hdefs : RIn T (Def.rlocsList defs))
+    (hexprs : RIn T (Expr.rlocsList exprs)) :
+    XPost T (toBody (n+1) ds defs exprs)
+      (fun p => RIn T (Def.rlocsList p.1) ∧ RIn T (Expr.rlocsList p.2)) := by
+  cases ds with
+  | nil =>
+    rw [toBody]
+    split
+    · exact xp_fail_none
+    · exact xp_pure ⟨rIn_defs_reverse hdefs, rIn_exprs_reverse hexprs⟩
+  | cons d ds =>
+    rw [toBody]
+    rw [allIn_cons] at hd
+    refine xp_bind (ih.stmt d hd.1) fun s hs => ?_
+    split
+    · rename_i df
+      simp only [Statement.rlocs] at hs
+      split
+      · exact ih.body ds _ _ hd.2 (by simp [Def.rlocsList, hs, hdefs]) hexprs
+      · cases df with
+        | mk nm e l =>
+          simp only [Def.rlocs, rIn_append, rIn_as] at hs
+          exact xp_fail hs.1
+    · rename_i e
+      simp only [Statement.rlocs] at hs
+      exact ih.body ds _ _ hd.2 hdefs (by simp [Expr.rlocsList, hs, hexprs])
+    · exact xp_fail ((Datum.loc_subset d).trans hd.1)
+
+theorem x_lib (args loc) (ha : AllIn T args) (hl : loc.toList ⊆ T) :
+    XPost T (toLibrary (n+1) args loc) (fun s => RIn T s.rlocs) := by
+  rw [toLibrary]
+  refine xp_bind xp_need fun nd hnd => ?_
+  refine xp_bind (expectList_post nd) fun nd' hnd' => ?_
+  subst hnd'
+  refine xp_bind (toLibName_post _ (allIn_elems (allIn_head ha hnd))) fun name _ => ?_
+  refine xp_bind (ih.decls _ (allIn_drop ha 1)) fun decls hdecls => ?_
+  exact xp_pure (by simp [Statement.rlocs, hl, hdecls])
+
+theorem x_decls (ds) (hd : AllIn T ds) :
+    XPost T (toLibDecls (n+1) ds) (fun xs => RIn T (LibDecl.rlocsList xs)) := by
+  cases ds with
+  | nil => rw [toLibDecls]; exact xp_pure (by simp [LibDecl.rlocsList])
+  | cons d ds =>
+    rw [toLibDecls]
+    rw [allIn_cons] at hd
+    refine xp_bind (ih.decl d hd.1) fun x hx => ?_
+    refine xp_bind (ih.decls ds hd.2) fun xs hxs => ?_
+    exact xp_pure (by simp [LibDecl.rlocsList, hx, hxs])
+
+theorem x_decl (d) (hd : d.locs ⊆ T) : XPost T (toLibDecl (n+1) d) (fun x => RIn T x.rlocs) := by
+  unfold toLibDecl
+  refine xp_bind (expectList_post d) fun d' hd' => ?_
+  subst hd'
+  have he := allIn_elems hd
+  refine xp_bind xp_need fun first hf => ?_
+  split
+  · refine xp_bind (xp_mapM (fun x hx => toExportSpec_post x (allIn_drop he 1 x hx))) fun specs hs => ?_
+    exact xp_pure (by simp only [LibDecl.rlocs]; exact rIn_exports hs)
+  · refine xp_bind (ih.stmts _ (allIn_drop he 1)) fun body hb => ?_
+    exact xp_pure (by simpa [LibDecl.rlocs] using hb)
+  · refine xp_bind (xp_mapM (fun x hx => toImportSet_post n x (allIn_drop he 1 x hx))) fun sets hs => ?_
+    exact xp_pure (by simp only [LibDecl.rlocs]; exact rIn_importSets hs)
+
+theorem x_stmts (ds) (hd : AllIn T ds) :
+    XPost T (toStatements (n+1) ds) (fun ss => RIn T (Statement.rlocsList ss)) := by
+  cases ds with
+  | nil => rw [toStatements]; exact xp_pure (by simp [Statement.rlocsList])
+  | cons d ds =>
+    rw [toStatements]
+    rw [allIn_cons] at hd
+    refine xp_bind (ih.stmt d hd.1) fun x hx => ?_
+    refine xp_bind (ih.stmts ds hd.2) fun xs hxs => ?_
+    exact xp_pure (by simp [Statement.rlocsList, hx, hxs])
+
+theorem x_stmt (d) (hd : d.locs ⊆ T) : XPost T (toStatement (n+1) d) (fun s => RIn T s.rlocs) := by
+  unfold toStatement
+  have hloc : d.loc.toList ⊆ T := (Datum.loc_subset d).trans hd
+  split
+  · exact xp_pure (by simpa [Statement.rlocs, Expr.rlocs, Datum.loc] using hloc)
+  · exact xp_pure (by simpa [Statement.rlocs, Expr.rlocs, Datum.loc] using hloc)
+  · exact xp_pure (by simp [Statement.rlocs, Expr.rlocs, hloc, hd])
+  · exact xp_fail_none
+  · rename_i a b l
+    refine xp_bind (xp_lift (fun e he => Macro.none_sub (Macro.popProper_err he))) fun o ho => ?_
+    split
+    · exact xp_fail_none
+    · rename_i first rest
+      obtain ⟨l', hl'⟩ := Macro.popProper_ok ho
+      cases hl'
+      simp only [Datum.locs, List.append_subset] at hd
+      simp only [Datum.loc] at hloc ⊢
+      have hargs : AllIn T b.elems := allIn_elems hd.2.2
+      split
+      · rename_i kw lk
+        split
+        · refine xp_bind (ih.defn _ hargs) fun p hp => ?_
+          exact xp_pure (by simp [Statement.rlocs, Def.rlocs, hloc, hp])
+        split
+        · exact ih.lib _ _ hargs hloc
+        split
+        · refine xp_bind (ih.lam _ hargs) fun lam hlam => ?_
+          exact xp_pure (by simp [Statement.rlocs, Expr.rlocs, hloc, hlam])
+        split
+        · refine xp_bind xp_need fun t ht => ?_
+          refine xp_bind (ih.expr t (allIn_head hargs ht)) fun t' ht' => ?_
+          refine xp_bind xp_need fun c hc => ?_
+          refine xp_bind (ih.expr c (allIn_head (allIn_drop hargs 1) hc)) fun c' hc' => ?_
+          split
+          · rename_i ad had
+            refine xp_bind (ih.expr ad (allIn_head (allIn_drop hargs 2) had)) fun x hx => ?_
+            refine xp_bind (xp_pure (P := fun a => a = some x) rfl) fun a' ha' => ?_
+            subst ha'
+            exact xp_pure (by simp [Statement.rlocs, Expr.rlocs, Expr.rlocsOpt, hloc, ht', hc', hx])
+          · refine xp_bind (xp_pure (P := fun a => a = none) rfl) fun a' ha' => ?_
+            subst ha'
+            exact xp_pure (by simp [Statement.rlocs, Expr.rlocs, Expr.rlocsOpt, hloc, ht', hc'])
+        split
+        · refine xp_bind (xp_mapM (fun x hx => toImportSet_post n x (hargs x hx))) fun sets hs => ?_
+          exact xp_pure (by
+            simp only [Statement.rlocs, rIn_append, rIn_as]; exact ⟨hloc, rIn_importSets hs⟩)
+        split
+        · refine xp_bind xp_need fun q hq => ?_
+          exact xp_pure (by simp [Statement.rlocs, Expr.rlocs, hloc, allIn_head hargs hq])
+        split
+        · refine xp_bind xp_need fun target htarget => ?_
+          have htl := allIn_head hargs htarget
+          split
+          · rename_i name targetLoc
+            refine xp_bind xp_need fun v hv => ?_
+            refine xp_bind (ih.expr v (allIn_head (allIn_drop hargs 1) hv)) fun v' hv' => ?_
+            refine xp_pure ?_
+            cases targetLoc with
+            | none => simpa [Statement.rlocs, Expr.rlocs, hv'] using hloc
+            | some p =>
+              have : p ∈ T := by simpa [Datum.locs] using htl
+              simp [Statement.rlocs, Expr.rlocs, hv', this]
+          · exact xp_fail_none
+        split
+        · refine xp_bind xp_need fun k hk => ?_
+          refine xp_bind (identOf_post k (allIn_head hargs hk)) fun k' _ => ?_
+          refine xp_bind xp_need fun spec hspec => ?_
+          refine xp_bind (xp_lift (fun e he =>
+            (Macro.toRules_err he).trans (allIn_head (allIn_drop hargs 1) hspec))) fun rules _ => ?_
+          refine xp_bind xp_defineSyntax fun _ _ => ?_
+          exact xp_pure (by simp [Statement.rlocs, hloc])
+        · refine xp_bind xp_getEnv fun env _ => ?_
+          split
+          · rename_i rules hr
+            refine xp_bind (xp_lift (fun e he => Macro.none_sub (Macro.transformRules_err _ e he)))
+              fun expanded hex => ?_
+            refine ih.stmt expanded ?_
+            refine Macro.transformRules_locs (T := T) ?_ _ _ hex
+            exact (Datum.locs_withLoc b l).trans (List.append_subset.2 ⟨hloc, hd.2.2⟩)
+          · refine xp_bind (ih.call _ _ _ hd.2.1 hargs hloc) fun c hc => ?_
+            exact xp_pure (by simpa [Statement.rlocs] using hc)
+      · refine xp_bind (ih.call _ _ _ hd.2.1 hargs hloc) fun c hc => ?_
+        exact xp_pure (by simpa [Statement.rlocs] using hc)
+
+end succ
+
+theorem xAt : ∀ n, XAt T n
+  | 0 => xAt_zero
+  | n + 1 =>
+    have ih := xAt n
+    ⟨x_stmt ih, x_expr ih, x_call ih, x_exprs ih, x_defn ih, x_lam ih, x_body ih, x_lib ih,
+      x_decls ih, x_decl ih, x_stmts ih⟩
+
+/-- `xform_locs`: every position in the statement `toStatement` returns is a position of the datum;
+a located syntax error of the transformer is located inside the datum too -/
+theorem toStatement_locs {fuel : Nat} {d : Datum} {env : SynEnv} :
+    (∀ s, (toStatement fuel d env).1 = .ok s → unrole s.rlocs ⊆ d.locs) ∧
+    (∀ e, (toStatement fuel d env).1 = .error e → e.2.toList ⊆ d.locs) := by
+  have := (xAt (T := d.locs) fuel).stmt d (fun _ h => h) env
+  exact ⟨fun s hs => rIn_iff.1 (this.1 s hs), this.2⟩
+
+/-! ### the position of the statement itself -/
+
+/-- successful results of `m` satisfy `P` -/
+def XOk {α} (m : XM α) (P : α → Prop) : Prop := ∀ env a, (m env).1 = .ok a → P a
+
+theorem xo_pure {α} {a : α} {P : α → Prop} (h : P a) : XOk (pure a : XM α) P :=
+  fun _ b hb => by cases hb; exact h
+theorem xo_fail {α} {e : SErr} {P : α → Prop} : XOk (Xform.fail e : XM α) P :=
+  fun _ b hb => by cases hb
+theorem xo_bind {α β} {m : XM α} {f : α → XM β} {Q : β → Prop} (hf : ∀ a, XOk (f a) Q) :
+    XOk (m >>= f) Q := by
+  intro env b hb
+  simp only [bind_def] at hb
+  generalize m env = x at hb
+  obtain ⟨r, env'⟩ := x
+  cases r with
+  | error e => cases hb
+  | ok a => exact hf a env' b hb
+
+theorem xo_bind' {α β} {m : XM α} {f : α → XM β} {P : α → Prop} {Q : β → Prop} (hm : XOk m P)
+    (hf : ∀ a, P a → XOk (f a) Q) : XOk (m >>= f) Q := by
+  intro env b hb
+  simp only [bind_def] at hb
+  have := hm env
+  generalize m env = x at hb this
+  obtain ⟨r, env'⟩ := x
+  cases r with
+  | error e => cases hb
+  | ok a => exact hf a (this a rfl) env' b hb
+
+theorem toCall_loc (n first args loc) : XOk (toCall n first args loc) (fun e => e.loc = loc) := by
+  cases n with
+  | zero => rw [toCall]; exact xo_fail
+  | succ n => rw [toCall]; exact xo_bind fun _ => xo_bind fun _ => xo_pure rfl
+
+theorem toLibrary_loc (n args loc) : XOk (toLibrary n args loc) (fun s => s.loc = loc) := by
+  cases n with
+  | zero => rw [toLibrary]; exact xo_fail
+  | succ n =>
+    rw [toLibrary]
+    exact xo_bind fun _ => xo_bind fun _ => xo_bind fun _ => xo_bind fun _ => xo_pure rfl
+
+/-- is `d` a `(set! …)` form, or a use of a macro bound in `env`? -/
+def isSetOrMacroUse (env : SynEnv) : Datum → Bool
+  | .pair (.sym kw _) _ _ => kw = "set!" || (env.get? kw).isSome
+  | _ => false
+
+/-- the statement made from a form that is neither a `set!` nor a macro use is located where the
+form is (for `set!` it is located at the assigned identifier, for a macro use where the statement
+made from the expansion is) -/
+theorem toStatement_loc_eq {n : Nat} {d : Datum} {env : SynEnv} {s : Statement}
+    (h : (toStatement n d env).1 = .ok s) (hd : isSetOrMacroUse env d = false) : s.loc = d.loc := by
+  cases n with
+  | zero => rw [toStatement] at h; cases h
+  | succ n =>
+    unfold toStatement at h
+    split at h
+    · cases h; rfl
+    · cases h; rfl
+    · cases h; rfl
+    · cases h
+    · rename_i a b l
+      simp only [bind_def, Xform.lift] at h
+      split at h
+      · rename_i o env1 ho
+        simp only [Prod.mk.injEq] at ho
+        obtain ⟨ho, rfl⟩ := ho
+        split at h
+        · cases h
+        · rename_i first rest
+          obtain ⟨l', hl'⟩ := Macro.popProper_ok ho
+          cases hl'
+          simp only [Datum.loc]
+          have fin : ∀ {m : XM Statement}, XOk m (fun s => s.loc = l) → (m env).1 = .ok s → s.loc = l :=
+            fun hm h => hm env s h
+          split at h
+          · rename_i kw lk
+            simp only [isSetOrMacroUse, Bool.or_eq_false_iff, decide_eq_false_iff_not] at hd
+            split at h
+            · exact fin (xo_bind fun _ => xo_pure rfl) h
+            split at h
+            · exact toLibrary_loc _ _ _ _ _ h
+            split at h
+            · exact fin (xo_bind fun _ => xo_pure rfl) h
+            split at h
+            · refine fin (xo_bind fun _ => xo_bind fun _ => xo_bind fun _ => xo_bind fun _ => ?_) h
+              split
+              · exact xo_bind fun _ => xo_bind fun _ => xo_pure rfl
+              · exact xo_bind fun _ => xo_pure rfl
+            split at h
+            · exact fin (xo_bind fun _ => xo_pure rfl) h
+            split at h
+            · exact fin (xo_bind fun _ => xo_pure rfl) h
+            split at h
+            · rename_i hset; exact absurd hset hd.1
+            split at h
+            · exact fin (xo_bind fun _ => xo_bind fun _ => xo_bind fun _ => xo_bind fun _ =>
+                xo_bind fun _ => xo_pure rfl) h
+            · simp only [bind_def, getEnv] at h
+              have hnone : env.get? kw = none := by
+                cases hg : env.get? kw with
+                | none => rfl
+                | some r => simp [hg] at hd
+              simp only [hnone] at h
+              exact fin (xo_bind' (P := fun e => e.loc = l) (toCall_loc _ _ _ _) fun c hc => xo_pure (by simpa [Statement.loc] using hc)) h
+          · exact fin (xo_bind' (P := fun e => e.loc = l) (toCall_loc _ _ _ _) fun c hc => xo_pure (by simpa [Statement.loc] using hc)) h
+      · cases h
+
+/-- `(set! x e)` is located at `x` (at the form when `x` carries no position) -/
+theorem toStatement_set_loc {n : Nat} {a l : Loc} {rest : Datum} {env : SynEnv} {s : Statement}
+    (h : (toStatement n (.pair (.sym "set!" a) rest l) env).1 = .ok s) :
+    ∃ name tl, rest.elems.head? = some (.sym name tl) ∧ s.loc = tl.orElse (fun _ => l) := by
+  cases n with
+  | zero => rw [toStatement] at h; cases h
+  | succ n =>
+    unfold toStatement at h
+    simp only [bind_def, Xform.lift] at h
+    split at h
+    · rename_i o env1 ho
+      simp only [Prod.mk.injEq] at ho
+      obtain ⟨ho, rfl⟩ := ho
+      split at h
+      · cases h
+      · rename_i first rest'
+        obtain ⟨l', hl'⟩ := Macro.popProper_ok ho
+        cases hl'
+        simp only [Datum.loc] at h
+        simp only [show ("set!" = "define") = False by decide, show ("set!" = "define-library") = False by decide,
+          show ("set!" = "lambda") = False by decide, show ("set!" = "if") = False by decide,
+          show ("set!" = "import") = False by decide, show ("set!" = "quote") = False by decide,
+          if_false, if_true] at h
+        refine (xo_bind' (P := fun t => rest.elems.head? = some t)
+          (Q := fun s => ∃ name tl, rest.elems.head? = some (.sym name tl) ∧ s.loc = tl.orElse (fun _ => l))
+          ?_ fun t ht => ?_) env s h
+        · intro env' t ht
+          cases hh : rest.elems.head? with
+          | none => simp [hh, Xform.need, Xform.fail] at ht
+          | some t' => simp only [hh, Xform.need] at ht; cases ht; rfl
+        · split
+          · rename_i name tl
+            exact xo_bind fun _ => xo_bind fun _ => xo_pure ⟨name, tl, ht, rfl⟩
+          · exact xo_fail
+    · cases h
+
+end XformLoc
+
+/-! ## library sources carry no positions -/
+
+mutual
+theorem Datum.strip_locs : ∀ (d : Datum), d.strip.locs = []
+  | .prim _ _ => by simp [Datum.strip, Datum.locs]
+  | .sym _ _ => by simp [Datum.strip, Datum.locs]
+  | .nil _ => by simp [Datum.strip, Datum.locs]
+  | .pair a d _ => by simp [Datum.strip, Datum.locs, Datum.strip_locs a, Datum.strip_locs d]
+  | .vec xs _ => by simp [Datum.strip, Datum.locs, Datum.stripList_locs xs]
+theorem Datum.stripList_locs : ∀ (xs : List Datum), Datum.locsList (Datum.stripList xs) = []
+  | [] => by simp [Datum.stripList, Datum.locsList]
+  | x :: xs => by simp [Datum.stripList, Datum.locsList, Datum.strip_locs x, Datum.stripList_locs xs]
+end
+
+theorem unrole_eq_nil {L : List RPos} (h : unrole L ⊆ []) : L = [] := by
+  cases L with
+  | nil => rfl
+  | cons x xs => have := h (a := x.2) (by simp [unrole]); simp at this
+
+namespace InterpLoc
+open Interp
+
+theorem factoryOfText_go_clean (name : LibName) : ∀ (fuel : Nat) (s : Read.PState) (env : Xform.SynEnv)
+    (f : Factory), factoryOfText.go name fuel s env = .ok f → f.rlocs = []
+  | 0, s, env, f, h => by rw [factoryOfText.go] at h; cases h
+  | fuel + 1, s, env, f, h => by
+    rw [factoryOfText.go] at h
+    split at h
+    · cases h
+    · cases h
+    · rename_i d s' _
+      simp only at h
+      have hl := XformLoc.toStatement_locs (fuel := Xform.xformFuel d.strip) (d := d.strip) (env := env)
+      split at h
+      · cases h
+      · rename_i n decls l env' hs
+        split at h
+        · cases h
+          have := hl.1 _ (by rw [hs])
+          rw [Datum.strip_locs] at this
+          have h0 := unrole_eq_nil this
+          simp only [Statement.rlocs, List.append_eq_nil_iff] at h0
+          simpa [Factory.rlocs] using h0.2
+        · exact factoryOfText_go_clean name fuel s' env' f h
+      · exact factoryOfText_go_clean name fuel s' _ f h
+
+/-- `library_code_unlocated`: the code of a factory made from a library source carries no position -/
+theorem factoryOfText_clean : LibClean := by
+  intro name text f h
+  unfold factoryOfText at h
+  exact factoryOfText_go_clean name _ _ _ f h
 
 end InterpLoc
 
